@@ -10,6 +10,7 @@ import re
 
 from .. import cmpeval, hirq, mirg, rules
 from ..rules import ncallee
+from ..rules import norm as norm_
 
 META = {
     "level": "other",
@@ -76,6 +77,40 @@ def names_the_listfile(node, mpq, depth=0):
             if g is not None and re.search(r"::(rebuild|special_files)::", g.path) and names_the_listfile(g.hir["body"], mpq, depth + 1):
                 return True
     return False
+
+
+def listing_once_rule(ctx, mpq, pid):
+    """two listfile lines may name one stored file (case / slash variants, a repeated line): it is one file — and two stored files
+    are two files whatever they share: the seen-set of Archive::list is keyed by the *table entry* find_file resolved the name to
+    (index fields only), never by attributes two different files can have in common (position of an empty file, size, flags)"""
+    byp = {norm_(f.path): f for f in mpq.fn_list if f.hir and f.kind != "Closure"}
+    R_once = ctx.rule("%s.listing-yields-each-stored-file-once" % pid, "in Archive::list the entry pushed for a listfile name is guarded by a seen-set test keyed by the table indices find_file resolved it to (index fields only)", floor=1)
+    ls = byp.get("wow_mpq::archive::Archive::list")
+    if ls is None:
+        ctx.bad(R_once, "Archive::list|missing", "-", "function not found", "anchor gone")
+        return
+    ctx.saw_fn(ls)
+    loops = [l for l in hirq.find(ls.hir["body"], "for") if re.search(r"filenames|names|lines", hirq.render(l["iter"])) and any(c.get("k") == "mcall" and c["m"] == "find_file" for c in hirq.walk(l["body"]))]
+    if not loops:
+        ctx.bad(R_once, "Archive::list|shape", ls.where, "loop over the listfile names not found", "shape changed")
+    for lp in loops:
+        pushes = [c for c in hirq.walk(lp["body"]) if c.get("k") == "mcall" and c["m"] == "push"]
+        seen = [c for c in hirq.walk(lp["body"]) if c.get("k") == "mcall" and c["m"] in ("insert", "contains", "contains_key", "entry") and c.get("args")
+                and re.search(r"HashSet|BTreeSet|HashMap|BTreeMap", mpq.ty(hirq.strip(c["recv"]).get("t")) or "")]
+        keyed = []
+        for c in seen:
+            flds = [x["name"] for v in [c["args"][0]] + [y for y in hirq.value_leaves(lp["body"], c["args"][0]) if y is not None] for x in hirq.walk(v) if x.get("k") == "field"]
+            keyed.append((c, flds))
+        good = [c for c, flds in keyed if flds and all(re.search(r"index$|_idx$|slot$", f_) for f_ in flds)]
+        other = [(c, [f_ for f_ in flds if not re.search(r"index$|_idx$|slot$", f_)]) for c, flds in keyed if flds and not all(re.search(r"index$|_idx$|slot$", f_) for f_ in flds)]
+        if pushes and good and not other:
+            ctx.ok(R_once, {"fn": "Archive::list", "seen_test": hirq.render(good[0])[:70]})
+        elif pushes and other:
+            ctx.bad(R_once, "Archive::list|seen-key-not-the-entry", "%s:%d" % (ls.file, other[0][0].get("ln") or lp.get("ln") or 0), "the already-listed test is keyed by `%s` (fields %s) — attributes, not the table entry" % (hirq.render(other[0][0]["args"][0])[:60], ", ".join(other[0][1])),
+                    "two different stored files that share those attributes (consecutive empty files sit at the same position with size 0) count as one: all but the first vanish from list() although read_file still serves them")
+        else:
+            ctx.bad(R_once, "Archive::list|duplicates", "%s:%d" % (ls.file, lp.get("ln") or 0), "one entry is pushed per listfile line that resolves, with no test whether that table entry was listed already",
+                    "a listfile naming a file twice (`a.txt` and `A.TXT`, `dir/a.txt` and `dir\\\\a.txt`) lists it twice; the rebuild then aborts with \"Duplicate file in archive\", comparisons count it twice")
 
 
 def run(ctx):
@@ -456,25 +491,7 @@ def _listing_rules(ctx, mpq):
     if n_sites == 0:
         ctx.bad(R_self, "rebuild|no-listing", "-", "no Archive::list call found in rebuild.rs", "shape changed")
 
-    # (2) two listfile lines may name one stored file (case / slash variants, a repeated line): it is one file
-    R_once = ctx.rule("C07.listing-yields-each-stored-file-once", "in Archive::list the entry pushed for a listfile name is guarded by a seen-set test on the table entry find_file resolved it to", floor=1)
-    ls = byp.get("wow_mpq::archive::Archive::list")
-    if ls is None:
-        ctx.bad(R_once, "Archive::list|missing", "-", "function not found", "anchor gone")
-    else:
-        ctx.saw_fn(ls)
-        loops = [l for l in hirq.find(ls.hir["body"], "for") if re.search(r"filenames|names|lines", hirq.render(l["iter"])) and any(c.get("k") == "mcall" and c["m"] == "find_file" for c in hirq.walk(l["body"]))]
-        if not loops:
-            ctx.bad(R_once, "Archive::list|shape", ls.where, "loop over the listfile names not found", "shape changed")
-        for lp in loops:
-            pushes = [c for c in hirq.walk(lp["body"]) if c.get("k") == "mcall" and c["m"] == "push"]
-            seen = [c for c in hirq.walk(lp["body"]) if c.get("k") == "mcall" and c["m"] in ("insert", "contains", "contains_key", "entry") and re.search(r"HashSet|BTreeSet|HashMap|BTreeMap", mpq.ty(hirq.strip(c["recv"]).get("t")) or "")
-                    and re.search(r"hash_index|block_index|file_info|table_indices", hirq.render(c["args"][0]) if c.get("args") else "")]
-            if pushes and seen:
-                ctx.ok(R_once, {"fn": "Archive::list", "seen_test": hirq.render(seen[0])[:70]})
-            else:
-                ctx.bad(R_once, "Archive::list|duplicates", "%s:%d" % (ls.file, lp.get("ln") or 0), "one entry is pushed per listfile line that resolves, with no test whether that table entry was listed already",
-                        "a listfile naming a file twice (`a.txt` and `A.TXT`, `dir/a.txt` and `dir\\\\a.txt`) lists it twice; the rebuild then aborts with \"Duplicate file in archive\", comparisons count it twice")
+    listing_once_rule(ctx, mpq, "C07")
 
     # (3) the comparison summary counts files: a file that differs in size *and* in flags is one different file
     R_cmp = ctx.rule("C07.comparison-summary-counts-files", "compare_archives: identical_files = common - different_files, and different_files is the size of a set of names, not a sum of per-aspect list lengths", floor=1)
